@@ -120,7 +120,9 @@ package tlv
 
 //@ func NewTlvSimpleNode
 //@   props C16
-//@   ensures result != nil && fresh(result) && result.tag == tag && result.value === value && len(result.value) == len(value)
+//@   ensures result != nil && result.tag == tag && result.value === value && len(result.value) == len(value)
+//@   ensures fresh(result)
+//@   defines nodeValid(result) && seqid(nodeEnc(result), cat(tagEncS(tag), lenEncS(len(value)), value)) && seqid(nodeVal(result), value)
 //@   assigns nothing
 //@   safety all
 
@@ -156,7 +158,10 @@ package tlv
 
 //@ func Decode
 //@   props C16 C12
+//@   defines err == nil ==> setghost(nodes, "src", data)
+//@   ensures err == nil ==> fresh(nodes)
 //@   ensures "all-bytes-consumed": err == nil ==> tlvConsumed(nodes) == len(data)
+//@   assigns nothing
 //@   ensures err == nil ==> nodes != nil
 //@   ensures err != nil ==> nodes == nil
 //@   safety all
@@ -164,9 +169,10 @@ package tlv
 //@ func (nodes *TlvNodes) AddNode
 //@   props C16 C12
 //@   requires nodes != nil
+//@   defines setghost(nodes, "enc", nodeValid(node) ? cat(old(nodes.enc), nodeEnc(node)) : old(nodes.enc))
 //@   ensures "appends-at-most-one": len(nodes.nodes) == old(len(nodes.nodes)) || len(nodes.nodes) == old(len(nodes.nodes)) + 1
 //@   ensures "same-or-fresh-array": ref(nodes.nodes) == old(ref(nodes.nodes)) || fresh(nodes.nodes)
-//@   assigns nodes.nodes, content(nodes.nodes)
+//@   assigns nodes.nodes, content(nodes.nodes), nodes.enc
 //@   safety all
 
 //@ func (nodes *TlvNodes) AddNodes
@@ -174,5 +180,49 @@ package tlv
 //@   requires nodes != nil
 //@   ensures "same-or-fresh-array": ref(nodes.nodes) == old(ref(nodes.nodes)) || fresh(nodes.nodes)
 //@   loop 1 invariant ref(nodes.nodes) == old(ref(nodes.nodes)) || fresh(nodes.nodes)
-//@   assigns nodes.nodes, content(nodes.nodes)
+//@   assigns nodes.nodes, content(nodes.nodes), nodes.enc
 //@   safety all
+
+// ---------------------------------------------------------------- data objects of a decoded BER sequence (used by secure messaging)
+//
+// doEnc / doVal / doPresent are the first top-level data object with a given tag in the byte string a node
+// list was decoded from (ghost field TlvNodes.src); TlvNodes.enc is the concatenated encoding of the nodes
+// added so far. The link between the node objects and these spec functions is TRUSTED (it is the part of
+// C16 that is not proved: structural faithfulness of the recursive decoder and dynamic dispatch over TlvNode).
+//@ ghost field TlvNodes.src seq
+//@ ghost field TlvNodes.enc seq
+//@ uf doEnc(seq, int) seq
+//@ uf doVal(seq, int) seq
+//@ uf doPresent(seq, int) bool
+//@ uf nodeEnc(ref) seq
+//@ uf nodeVal(ref) seq
+//@ uf nodeValid(ref) bool
+
+//@ func (nodes TlvNodes) NodeByTag
+//@   props C16
+//@   trusted
+//@   ensures result != nil
+//@   ensures nodeValid(result) == doPresent(nodes.src, tag)
+//@   ensures seqid(nodeEnc(result), doEnc(nodes.src, tag)) && seqid(nodeVal(result), doVal(nodes.src, tag))
+//@   assigns nothing
+
+//@ func (n TlvNode) Encode
+//@   trusted
+//@   ensures seqid(result, nodeEnc(n))
+//@   ensures fresh(result)
+//@   assigns nothing
+//@ func (n TlvNode) Value
+//@   trusted
+//@   ensures seqid(result, nodeVal(n))
+//@   assigns nothing
+//@ func (n TlvNode) IsValidNode
+//@   trusted
+//@   ensures result == nodeValid(n)
+//@   pure
+
+//@ func (nodes TlvNodes) Encode
+//@   props C16
+//@   trusted
+//@   ensures seqid(result, nodes.enc)
+//@   ensures fresh(result)
+//@   assigns nothing
